@@ -1,6 +1,8 @@
 import Flowjaxv.Proofs.ArgCheck
 import Flowjaxv.Proofs.CtorsGen
 import Flowjaxv.Proofs.WrapperGen
+import Flowjaxv.Proofs.BnafInitGen
+import Flowjaxv.Proofs.PlanarInitGen
 /-!
 # C13 — malformed inputs are rejected, never silently broadcast
 
@@ -838,5 +840,71 @@ theorem gen_vmap_ctor_audit_instance :
     ⟨4, Or.inl ⟨rfl, rfl⟩, rfl, Or.inr ⟨[2], -1, 1, rfl, rfl, by decide, by decide⟩⟩
 
 end Audit
+section BnafInitGen
+open BnafInitPf
+
+/-- **`BlockAutoregressiveNetwork.__init__` (GENERATED, `Gen/BnafInitGen.lean`) raises exactly the documented `ValueError`**: for every
+key, `dim`, `cond_dim`, `depth`, `block_dim`, inverter, world and every scalar type, the constructor fails iff `activation` is an
+`AbstractBijection` whose declared `shape` is not `()` or whose `cond_shape` is not `None`, and the exception is then `ValueError`
+(never the `ValueError` of `zip(…, strict=True)` nor the `IndexError` of `layers_and_log_jac_fns[0]`); `None`, a scalar
+unconditional bijection and a callable always construct. -/
+theorem gen_bnaf_init_raises_iff {K α : Type} [Add α] [Sub α] [Mul α] [Div α] [Neg α] [LT α] [LE α] [BEq α]
+    [OfNat α 0] [OfNat α 1] [OfNat α 2] [OfNat α 4] [OfScientific α] [DecidableLT α] [DecidableLE α] [Transc α] [Inhabited α]
+    (W : Bw.World K α) (IW : Bw.InitWorld K α) (key : K) (dim : Nat) (cond_dim : Option Nat) (depth bd : Nat)
+    (activation : Option (Bw.ActArg α)) (inverter : Option (List α → Option (List α) → List α)) (e : Bw.PyErr) :
+    GenBnafInit.init W IW key dim cond_dim depth bd activation inverter = .error e
+      ↔ e = .valueError ∧ ∃ b, activation = some (.bijection b) ∧ (b.shape ≠ [] ∨ b.cond_shape ≠ none) :=
+  gen_init_raises_iff W IW key dim cond_dim depth bd activation inverter e
+
+/-- non-vacuity, both directions, on concrete arguments (`Int` scalars are not available to `Transc`; the world is irrelevant to the
+verdict): a bijection of shape `(2,)` and a conditional scalar bijection are rejected, `None` is accepted. -/
+theorem gen_bnaf_init_raises_instance {K α : Type} [Add α] [Sub α] [Mul α] [Div α] [Neg α] [LT α] [LE α] [BEq α]
+    [OfNat α 0] [OfNat α 1] [OfNat α 2] [OfNat α 4] [OfScientific α] [DecidableLT α] [DecidableLE α] [Transc α] [Inhabited α]
+    (W : Bw.World K α) (IW : Bw.InitWorld K α) (key : K) (m : Bw.ActBij α) :
+    GenBnafInit.init W IW key 3 none 2 2 (some (.bijection ⟨[2], none, m⟩)) none = .error .valueError ∧
+    GenBnafInit.init W IW key 3 (some 1) 0 2 (some (.bijection ⟨[], some [1], m⟩)) none = .error .valueError ∧
+    (∃ N, GenBnafInit.init W IW key 3 none 2 2 (some (.bijection ⟨[], none, m⟩)) none = .ok N) ∧
+    (∃ N, GenBnafInit.init W IW key 3 none 2 2 none none = .ok N) := by
+  refine ⟨?_, ?_, ?_, ?_⟩ <;> rw [gen_init_eq] <;> simp [resolveAct, Except.map]
+
+end BnafInitGen
+
+section PlanarInitGen
+open PlanarInitPf Gen
+
+/-- **`_UnconditionalPlanar.__init__` (GENERATED, `Gen/PlanarInitGen.lean`) raises exactly the documented `ValueError`**: for every
+weight, act_scale, bias and every scalar type the constructor fails iff `negative_slope` is given and `≤ 0`
+(`ValueError("The negative slope value should be >0.")`); `None` and every positive slope construct. -/
+theorem gen_uplanar_init_raises_iff {α : Type} [Add α] [Sub α] [Mul α] [Div α] [Neg α] [LT α] [LE α] [BEq α]
+    [OfNat α 0] [OfNat α 1] [OfNat α 2] [OfNat α 4] [OfScientific α] [DecidableLT α] [DecidableLE α] [Transc α] [Inhabited α]
+    (weight act_scale : List α) (bias : α) (negative_slope : Option α) (e : Pw.PyErr) :
+    GenPlanarInit.init weight act_scale bias negative_slope = .error e ↔ e = .valueError ∧ ∃ s, negative_slope = some s ∧ s ≤ 0 :=
+  gen_init_raises_iff weight act_scale bias negative_slope e
+
+/-- **the activation choice of the generated constructor, tied to `Gen/Planar.lean`**: an object it returns stores the arguments,
+`shape = weight.shape`, and `activation = "tanh"`, `activation_fn = jnp.tanh` for `negative_slope=None`, resp. `"leaky_relu"`,
+`partial(nn.leaky_relu, negative_slope=s)` (with `s > 0`) — and the generated `_UnconditionalPlanar.transform` specialised to that
+activation (`transform_tanh` / `transform_lrelu s`, the objects of the C01 / C02 Planar theorems) is
+`x + u * self.activation_fn(self.weight @ x + self.bias)` for the stored `activation_fn`. -/
+theorem gen_uplanar_init_activation (weight act_scale : List ℝ) (bias : ℝ) (negative_slope : Option ℝ) (obj : Pw.UPlanar ℝ)
+    (h : GenPlanarInit.init weight act_scale bias negative_slope = .ok obj) (x : List ℝ) :
+    let p : UnconditionalPlanar ℝ := ⟨obj.weight, obj._act_scale, obj.bias⟩
+    obj.weight = weight ∧ obj._act_scale = act_scale ∧ obj.bias = bias ∧ obj.shape = [weight.length] ∧
+    obj.negative_slope = negative_slope ∧
+    (negative_slope = none → obj.activation = "tanh".toList ∧ p.transform_tanh x
+          = List.zipWith (fun a b => a + b) x (p.get_act_scale.map fun a => a * obj.activation_fn (Jnp.dot p.weight x + p.bias))) ∧
+    (∀ s, negative_slope = some s → ¬ s ≤ 0 ∧ obj.activation = "leaky_relu".toList ∧ p.transform_lrelu s x
+          = List.zipWith (fun a b => a + b) x (p.get_act_scale.map fun a => a * obj.activation_fn (Jnp.dot p.weight x + p.bias))) :=
+  gen_init_activation weight act_scale bias negative_slope obj h x
+
+/-- non-vacuity over ℝ: slope `0` and `-1/2` raise, `None` and `1/10` construct -/
+theorem gen_uplanar_init_instance :
+    GenPlanarInit.init [1, 2] [3, 4] (5 : ℝ) (some 0) = .error .valueError ∧
+    GenPlanarInit.init [1, 2] [3, 4] (5 : ℝ) (some (-1 / 2)) = .error .valueError ∧
+    (∃ obj, GenPlanarInit.init [1, 2] [3, 4] (5 : ℝ) none = .ok obj ∧ obj.shape = [2]) ∧
+    (∃ obj, GenPlanarInit.init [1, 2] [3, 4] (5 : ℝ) (some (1 / 10)) = .ok obj ∧ obj.activation = "leaky_relu".toList) := by
+  refine ⟨?_, ?_, ?_, ?_⟩ <;> rw [gen_init_eq] <;> simp [spec] <;> norm_num
+
+end PlanarInitGen
 
 end C13
